@@ -1103,7 +1103,7 @@ for _nm, _row in (('_get_row', True), ('_get_col', False)):
     _dim = 'self._data.shape[%d]' % (0 if _row else 1)
     contract(F, 'Table.' + _nm, tier='A', props=['C05'],
         types={'self': 'Obj:Table', _p: 'Int'}, requires=WF_T,
-        returns='Obj:SP',
+        returns='SP',
         ensures=[
             "samecells(self._data, old(self._data.cell)) and self._data.shape == old(self._data.shape)",
             "self._data.fmt == '%s'" % ('csr' if _row else 'csc'),
@@ -1114,7 +1114,8 @@ for _nm, _row in (('_get_row', True), ('_get_col', False)):
              "all(cell(result, i, 0) == cell(self._data, i, {p} if {p} >= 0 else {p} + {d}) for i in range(self._data.shape[0]))")
             .format(p=_p, d=_dim),
         ],
-        raises={'IndexError': ["not (-{d} <= {p} and {p} < {d})".format(p=_p, d=_dim)]},
+        raises={'IndexError': ["not (-{d} <= {p} and {p} < {d})".format(p=_p, d='old(%s)' % _dim),
+                               "samecells(self._data, old(self._data.cell)) and self._data.shape == old(self._data.shape)"]},
         modifies=['self._data', 'self._data.*'])
 
 contract(F, 'Table.__getitem__', inline_at_calls=True, tier='A', props=['C05'],
@@ -1823,3 +1824,46 @@ for _fn, _gh in (('min', 'vecmin'), ('max', 'vecmax')):
                    "all(%s_val[k] == %s(self._data, axis, k) for k in range(0, __i1))" % (_fn, _gh),
                    "len(%s_val) == (len(self._sample_ids) if axis == 'sample' else len(self._observation_ids))" % _fn,
                    "not self._data.haszeros"])})
+
+
+# ---- Table.data (C05: the per-id vector accessor) -------------------------------------------------------------------
+def _slice_getattr(self, eng, st, attr):
+    if attr in ('start', 'stop'):
+        v = self.lo if attr == 'start' else self.hi
+        return NONE if v is None else VInt(v)
+    if attr == 'step':
+        return NONE
+    raise EngineError('attribute %s of a slice' % attr)
+
+
+from pyvc.values import VSlice as _VSlice      # noqa: E402
+_VSlice.sv_getattr = _slice_getattr
+
+ASSUMED['Table._to_dense'] = ('Table._to_dense(vec) of a 1 x n or n x 1 matrix is the 1-D array of its n cells, in order '
+                              '(toarray + squeeze / reshape are not modelled)')
+contract(F, 'Table._to_dense', tier='A', props=[], kind='assumed',
+    types={'vec': 'SP'}, returns='Arr[Real]',
+    ensures=["implies(vec.shape[0] == 1, len(result) == vec.shape[1] and all(result[j] == cell(vec, 0, j) for j in range(vec.shape[1])))",
+             "implies(vec.shape[0] != 1, len(result) == vec.shape[0] and all(result[i] == cell(vec, i, 0) for i in range(vec.shape[0])))"],
+    modifies=[], assumes=[ASSUMED['Table._to_dense']])
+
+contract(F, 'Table.data', tier='A', props=['C05'],
+    types={'self': 'Obj:Table', 'id': 'Str', 'axis': 'Str', 'dense': 'Bool'},
+    requires=WF_T + ["is_index_of(self._sample_index, self._sample_ids) and is_index_of(self._obs_index, self._observation_ids)"],
+    returns='Val',
+    ensures=[
+        # the vector of the id on the requested axis: cell by cell, in the order of the other axis
+        "implies(dense and axis == 'sample', len(result) == self._data.shape[0] and "
+        "        all(result[i] == cell(self._data, i, self._sample_index[id]) for i in range(self._data.shape[0])))",
+        "implies(dense and axis == 'observation', len(result) == self._data.shape[1] and "
+        "        all(result[j] == cell(self._data, self._obs_index[id], j) for j in range(self._data.shape[1])))",
+        "implies(not dense and axis == 'sample', result.shape[0] == self._data.shape[0] and result.shape[1] == 1 and "
+        "        all(cell(result, i, 0) == cell(self._data, i, self._sample_index[id]) for i in range(self._data.shape[0])))",
+        "implies(not dense and axis == 'observation', result.shape[1] == self._data.shape[1] and result.shape[0] == 1 and "
+        "        all(cell(result, 0, j) == cell(self._data, self._obs_index[id], j) for j in range(self._data.shape[1])))",
+        "samecells(self._data, old(self._data.cell)) and self._data.shape == old(self._data.shape)",
+    ],
+    raises={'UnknownAxisError': ["not (%s)" % AX],
+            'UnknownIDError': [AX, "id not in %s" % IDX],
+            'IndexError': ["self._data.shape[0] == 0 or self._data.shape[1] == 0"]},
+    modifies=['self._data', 'self._data.*'])
